@@ -13,7 +13,7 @@ Hypothesis eq_refl_A : forall x, aeqb A x x.    (* no NaN: exact arithmetic, or 
 Lemma cholesky_route (S : settings F) bs n gs R logdet reduce probes :
   (~~ s_log_prob S || (n <= s_max_cholesky_size S)) ->
   generic_iql A eigh S bs n gs R logdet reduce probes =
-  ROk (chol_iql A bs [seq (false, n, cholesky A n (g_M g)) | g <- gs] R logdet reduce).
+  ROk (chol_iql A bs [seq (false, n, shortcut_root A n g) | g <- gs] R logdet reduce).
 Proof. by rewrite /generic_iql /chol_route => ->. Qed.
 
 (* documented shapes *)
@@ -109,7 +109,7 @@ Theorem leaf_shape_conventions S bs ms R logdet reduce probes iq ld :
   leaf_iql A eigh S bs ms R logdet reduce probes = ROk (iq, ld) ->
   ok_iq bs R reduce iq /\ ok_ld bs logdet ld.
 Proof.
-rewrite /leaf_iql; case: (head _ ms) => [n M pc|d|n|up n T|up n T|fs|fs dk|n k U d|n M].
+rewrite /leaf_iql; case: (head _ ms) => [n M pc|d|n|up n T|up n T|fs|fs dk|n k U d|n M|n M L].
 - exact: generic_iql_ok.
 - by case=> <- <-; apply: empty_conv_ok.
 - by case=> <- <-; apply: empty_conv_ok.
@@ -129,6 +129,8 @@ rewrite /leaf_iql; case: (head _ ms) => [n M pc|d|n|up n T|up n T|fs|fs dk|n k U
 - (* Exact *)
   case=> <- <-; split; last by case: logdet.
   by case: R => [[isv Rs]|] //; apply: (@mk_iq_ok bs (Some (isv, Rs))).
+- (* Cached *)
+  exact: generic_iql_ok.
 Qed.
 
 (* ------------------------------------------------------------------ wrappers: BlockDiag / BlockInterleaved / BatchRepeat *)
